@@ -16,6 +16,7 @@ import (
 
 	g "github.com/zenon-network/go-zenon/chain/genesis/mock"
 	"github.com/zenon-network/go-zenon/chain/nom"
+	"github.com/zenon-network/go-zenon/common/db"
 	"github.com/zenon-network/go-zenon/common/types"
 	"github.com/zenon-network/go-zenon/wallet"
 
@@ -42,6 +43,11 @@ type world struct {
 	sides   map[int][]*nom.DetailedMomentum
 	sideLen map[int]int
 	alien   []*nom.DetailedMomentum // a chain from another history sharing only genesis (for non-linking batches)
+	// a block valid on the local chain (acknowledges the local tip, account untouched by either branch) and, per depth, a
+	// longer side chain whose LAST momentum was produced by a misbehaving elected pillar that cemented that block without
+	// verifying it (on the side chain the acknowledged momentum does not exist)
+	stale     *nom.AccountBlock
+	dishonest map[int][]*nom.DetailedMomentum
 }
 
 func keyOf(addr types.Address) *wallet.KeyPair {
@@ -54,7 +60,7 @@ func keyOf(addr types.Address) *wallet.KeyPair {
 }
 
 func buildWorld(c *xs.Ctx, length int, depths []int) *world {
-	w := &world{name: fmt.Sprintf("L%d", length), sides: map[int][]*nom.DetailedMomentum{}, sideLen: map[int]int{}}
+	w := &world{name: fmt.Sprintf("L%d", length), sides: map[int][]*nom.DetailedMomentum{}, sideLen: map[int]int{}, dishonest: map[int][]*nom.DetailedMomentum{}}
 	p := vnode.New(vnode.Options{Dir: c.TempDir()})
 	defer p.Destroy()
 	// local chain of `length` momentums above genesis, with some content at the start and near the tip
@@ -67,6 +73,13 @@ func buildWorld(c *xs.Ctx, length int, depths []int) *world {
 	ops.Apply(p, M) // height length+1
 	L := p.Height()
 	w.local = p.Range(2, L)
+	staleTx, err := p.Generate(&nom.AccountBlock{BlockType: nom.BlockTypeUserSend, Address: ops.Users[9].Address, ToAddress: ops.Users[8].Address,
+		TokenStandard: types.ZnnTokenStandard, Amount: ops.Big(3)})
+	if err != nil {
+		panic(err)
+	}
+	w.stale = staleTx.Block
+	staleChanges := staleTx.Changes.Dump()
 	// side chains: a second producer synced to L-depth, then different content, up to depth+1 momentums
 	for _, d := range depths {
 		if uint64(d) >= L-1 {
@@ -87,6 +100,27 @@ func buildWorld(c *xs.Ctx, length int, depths []int) *world {
 			ops.Apply(q, M)
 		}
 		w.sides[d] = q.Range(L-uint64(d)+1, q.Height()) // d+1 momentums
+		if d <= 3 {
+			// the misbehaving pillar puts the stale block into its pool unverified and produces
+			if e, _ := q.AddAccountBlocks([]*nom.AccountBlock{vnode.CloneBlock(w.stale)}); e == nil {
+				panic("harness: an honest node on the side chain must refuse the block acknowledging the abandoned momentum")
+			}
+			patch, perr := db.NewPatchFromDump(append([]byte{}, staleChanges...))
+			if perr != nil {
+				panic(perr)
+			}
+			ins := q.Chain.AcquireInsert("c16 misbehaving pillar")
+			perr = q.Chain.AddAccountBlockTransaction(ins, &nom.AccountBlockTransaction{Block: vnode.CloneBlock(w.stale), Changes: patch})
+			ins.Unlock()
+			if perr != nil {
+				panic(perr)
+			}
+			ops.Apply(q, M)
+			w.dishonest[d] = q.Range(L-uint64(d)+1, q.Height()) // d+2 momentums, the last one cements the stale block
+			if n := len(w.dishonest[d]); len(w.dishonest[d][n-1].AccountBlocks) == 0 {
+				panic("harness: dishonest momentum is empty")
+			}
+		}
 		q.Destroy()
 	}
 	// extension on top of local
@@ -121,6 +155,7 @@ type shape struct {
 	// expectation
 	expectChain func(w *world) []*nom.DetailedMomentum // chain (heights 2..) the node must end on
 	expectErr   bool
+	pre         func(n *vnode.Node, w *world) // optional: something that happens on the node before the delivery
 	expectIdx   int // expected returned index when expectErr (−1 = not checked: the statement only fixes it for a failing momentum)
 	then        *shape
 }
@@ -303,6 +338,25 @@ func shapesFor(w *world) []*shape {
 			}
 		}
 	}
+	// a longer side chain whose last momentum cements a block that fails verification there; with and without the node
+	// having pooled that (locally valid) block beforehand
+	for d, dis := range w.dishonest {
+		d, dis := d, dis
+		for _, gossip := range []bool{false, true} {
+			gossip := gossip
+			s := &shape{Name: fmt.Sprintf("fork-depth-%d-longer-cementing-unverifiable-block-gossiped-%v", d, gossip),
+				batch:       func(w *world) []*nom.DetailedMomentum { return dis },
+				expectChain: localOf, expectErr: true, expectIdx: len(dis) - 1}
+			if gossip {
+				s.pre = func(n *vnode.Node, w *world) {
+					if e, pn := n.AddAccountBlocks([]*nom.AccountBlock{vnode.CloneBlock(w.stale)}); e != nil || pn != nil {
+						panic(fmt.Sprintf("harness: the block must be valid on the local chain: %v %v", e, pn))
+					}
+				}
+			}
+			add(s)
+		}
+	}
 	// gap
 	add(&shape{Name: "gap-skip-one", batch: func(w *world) []*nom.DetailedMomentum { return w.ext[1:] }, expectChain: localOf, expectErr: true, expectIdx: -1})
 	add(&shape{Name: "gap-skip-two", batch: func(w *world) []*nom.DetailedMomentum { return w.ext[2:] }, expectChain: localOf, expectErr: true, expectIdx: -1})
@@ -385,6 +439,9 @@ func runShape(c *xs.Ctx, r *xs.Result, w *world, s *shape) {
 		rep := map[string]string{"world": w.name, "shape": s.Name}
 		bad := func(sig, format string, a ...interface{}) {
 			r.Violate("C16:"+sig, fmt.Sprintf("local chain %s, batch %q: ", w.name, name)+fmt.Sprintf(format, a...), rep)
+		}
+		if step.pre != nil {
+			step.pre(n, w)
 		}
 		batch := vnode.CloneBatch(step.batch(w))
 		idx, err, pan := n.InsertChain(batch)
